@@ -156,12 +156,16 @@ class Fetch(Harness):
                 for mode in ("whole", "plain", "fast"):
                     if mode == "whole":
                         out.append(dict(records=[list(r) for r in rs], crlf=crlf, mode=mode, targets=[]))
+                        if not crlf and rs in recs[1:4]:
+                            out.append(dict(records=[list(r) for r in rs], crlf=crlf, mode=mode, targets=[], reopened=True))
                         continue
                     tg = [[0], [len(rs) - 1, 0]] if len(rs) > 1 else [[0], [0, 0]]
                     for t in tg:
                         if tier == "quick" and len(t) == 2 and rs[0][0] > 4:
                             continue
                         out.append(dict(records=[list(r) for r in rs], crlf=crlf, mode=mode, targets=t))
+                        if not crlf and rs in recs[1:4]:
+                            out.append(dict(records=[list(r) for r in rs], crlf=crlf, mode=mode, targets=t, reopened=True))
                         if t[0] == len(rs) - 1 and (tier == "thorough" or not crlf):    # last record fetched from a file without a final newline
                             out.append(dict(records=[list(r) for r in rs], crlf=crlf, mode=mode, targets=t, no_final_newline=True))
         return out
@@ -187,6 +191,16 @@ class Fetch(Harness):
         fobj = ctx.file(data)
         ifa.open = lambda fn, mode="r", *a, **k: fobj if str(fn) == fa and "b" in mode else real_open(fn, mode, *a, **k)
         try:
+            if skel.get("reopened"):
+                # history: the same path held another FASTA (longer records, other offsets) that was opened earlier in this process;
+                # the file and its index were then replaced
+                with open(fa + ".fai", "w") as fh:
+                    for r in rows:
+                        fh.write(f"{r['name']}\t{r['rlen'] + 1}\t{r['offset'] + 3}\t{r['lenc'] + 1}\t{r['lenb'] + 1}\n")
+                ifa.IndexedFasta(fa).get_contig_lengths()
+                with open(fa + ".fai", "w") as fh:
+                    for r in rows:
+                        fh.write(f"{r['name']}\t{r['rlen']}\t{r['offset']}\t{r['lenc']}\t{r['lenb']}\n")
             ix = ifa.IndexedFasta(fa)
             res = dict(lengths=ix.get_contig_lengths())
             if skel["mode"] == "whole":
@@ -260,4 +274,24 @@ class Fetch(Harness):
         return None
 
 
-HARNESSES = [BuildIndex(), Fetch()]
+
+def _genome_sequence_harness():
+    from checks.C10 import ValuesUnderIntervals
+
+    class GenomeSequence(ValuesUnderIntervals):
+        """Genome.read_sequence()[intervals] over an indexed FASTA (GenomicSequenceIndexedFasta): every interval gets its own bases, in the order
+        of the request, whatever the order of the request relative to the file and the genome (the C10 harness under its C17 name)"""
+        name = "genome_sequence"
+        bounds = {"quick": "indexed FASTA with records a, chr2, b_1 (ignored by the genome), zz; 2-3 stranded intervals requested in orders that are a "
+                           "swap, a 3-cycle and a repetition of the genome order; symbolic bounds, strands and bases",
+                  "thorough": "all orders of 3 intervals over the three genome contigs"}
+
+        def skeletons(self, tier, seed):
+            orders = [[3, 0, 1], [1, 3, 0], [0, 0, 3], [3, 1]]
+            if tier == "thorough":
+                orders += [[0, 1, 3], [0, 3, 1], [1, 0, 3], [3, 1, 0], [3, 3, 0]]
+            return [dict(genome="fasta", ivs=o, what="sequence_fasta") for o in orders]
+    return GenomeSequence()
+
+
+HARNESSES = [BuildIndex(), Fetch(), _genome_sequence_harness()]
